@@ -513,6 +513,7 @@ class HttpFuzz:
         import appboot
         import c16_http
         self.H = c16_http
+        self.ctx = ctx
         self.ch = ch
         self.rng = rng
         self.app = c16_http.world()
@@ -732,6 +733,24 @@ class HttpFuzz:
         clock.set(self.H.NOW)
         self.clients = saved
 
+    def long_strings(self):
+        """every string-typed option (and the raw <drm>_la_url parameters DrmContext reads) with values of
+        1 KB, 4096/4097, 32700, 64 KB -/+ 8 and 1 MB characters, and with format-template look-alikes, on a
+        manifest, an encrypted init segment, an encrypted media segment and the player page with DRM selected"""
+        H = self.H
+        names = [n for n in self.names if self.kinds[n] in H.STRING_KINDS] + \
+            ["clearkey_la_url", "playready_la_url", "marlin_la_url"]
+        targets = ["/dash/vod/bbb/hand_made.mpd", "/dash/live/bbb/bbb_v7_enc/init.m4v", "/dash/vod/bbb/bbb_v7_enc/1.m4v",
+                   "/play/live/bbb/hand_made/index.html", "/mps/live/c16mps/hand_made.mpd", "/time/xsd"]
+        for name in names:
+            url = name.endswith("la_url")
+            sizes = H.LONG_SIZES if (url or self.ctx.thorough) else [1024, 4097, 65536 + 8]
+            vals = [H.long_value(n, url) for n in sizes] + (H.FORMAT_STRINGS if (url or self.ctx.thorough)
+                                                           else self.rng.sample(H.FORMAT_STRINGS, 2))
+            for v in vals:
+                for t in (targets[:3] if url else self.rng.sample(targets, 2 if self.ctx.thorough else 1)):
+                    self.one("GET", t, [["drm", "all"], [name, v]], "anon", None, endpoint="long-strings")
+
     def mutating(self, n):
         """POST / PUT / DELETE with junk bodies and no valid CSRF token"""
         rng = self.rng
@@ -759,6 +778,8 @@ def ch_fuzz_http(ctx) -> Channel:
         "name with accepted-but-odd, boundary, type-confused and hostile values x streams with missing pieces "
         "(no encrypted files, no audio, no timing reference, unindexed media, no media, multi-period streams "
         "without periods / without timing reference / of zero duration) x Range/Host/Cookie headers; the "
+        "every string-typed option and the raw <drm>_la_url parameters with values of 1 KB ... 64 KB +- 8 ... 1 MB "
+        "characters and with format-template look-alikes on manifest / encrypted init / media / player routes; "
         "clock-dependent routes at boundary instants of the controlled clock (1970, NTP era end 2036, 2^31 and "
         "2^32 Unix seconds, year 9999); plus "
         "POST/PUT/DELETE rules with junk bodies and no valid CSRF token; oracle: status < 500 or a code the "
@@ -773,9 +794,10 @@ def ch_fuzz_http(ctx) -> Channel:
         fz.clock_sweep(clock, ctx.scale(4, 150))
         fz.login()
         fz.regressions()
+        fz.long_strings()
         fz.sweep()
         fz.every_option()
-        fz.random_gets(ctx.scale(1900, 45000))
+        fz.random_gets(ctx.scale(1500, 40000))
         before = c16_http.pools(fz.app)
         fz.mutating(ctx.scale(250, 4000))
         after = c16_http.pools(fz.app)
@@ -826,16 +848,29 @@ def ch_fuzz_mp4(ctx) -> Channel:
         count_cases += M.count_cases(k, S[k], None if ctx.thorough else quick_values)
     ch.count("count-field cases", len(count_cases))
     # ---- seeded mutations
-    n_lib, n_insp, n_idx = ctx.scale(200, 6000), ctx.scale(50, 1500), ctx.scale(40, 1200)
+    n_lib, n_insp, n_idx = ctx.scale(150, 4500), ctx.scale(50, 1200), ctx.scale(40, 1000)
     rand_cases = []
     for _ in range(n_lib):
         k = rng.choice(sorted(S))
         rand_cases.append(M.mutate(rng, k, S[k]))
     seen = set()
+    dead = set()          # (box, field) whose edit already ran into the watchdog: not run again (each costs the budget)
+    timeouts = 0
+
+    def skip(desc):
+        return (desc.get("box"), desc.get("field")) in dead or timeouts >= 12
+
     for desc, data in cases + count_cases + rand_cases:
         for target in M.LIB_TARGETS:
+            if skip(desc):
+                ch.count("skipped after a watchdog hit on the same field")
+                continue
             ch.evaluations += 1
             r = M.run_lib(data, target)
+            if r["outcome"] == "timeout":
+                timeouts += 1
+                if desc["op"] == "count":
+                    dead.add((desc["box"], desc["field"]))
             ch.count(f"lib:{target}:{r['outcome']}")
             if r["outcome"] == "ok" and desc["op"] != "none":
                 ch.nontrivial.add((repr(desc), target))
@@ -851,7 +886,13 @@ def ch_fuzz_mp4(ctx) -> Channel:
         up = M.Uploader(app)
         sub = cases[:n_plain] + big[:ctx.scale(30, 400)] + rand_cases[:n_insp]
         for desc, data in sub:
+            if skip(desc):
+                continue
             for st in up.inspect(data):
+                if st["status"] == 0:
+                    timeouts += 1
+                    if desc["op"] == "count":
+                        dead.add((desc["box"], desc["field"]))
                 ch.evaluations += 1
                 ch.count(f"inspect:{st['status']}")
                 if st["status"] == 200 and desc["op"] != "none":
@@ -863,7 +904,13 @@ def ch_fuzz_mp4(ctx) -> Channel:
                                                "exception": list(st["exc"]) if st["exc"] else None})
         sub = cases[:n_plain] + big[:ctx.scale(10, 150)] + rand_cases[n_insp:n_insp + n_idx]
         for desc, data in sub:
+            if skip(desc):
+                continue
             steps = up.upload_index(data)
+            if any(st["status"] == 0 for st in steps):
+                timeouts += 1
+                if desc["op"] == "count":
+                    dead.add((desc["box"], desc["field"]))
             ch.evaluations += 1
             if steps and steps[-1].get("indexed") and desc["op"] != "none":
                 ch.nontrivial.add(("index", repr(desc)))
